@@ -165,10 +165,8 @@ func (b *Broker) reply(c *Conn, p *wire.Packet, r []byte, note string) {
 	}
 	if policy == "" {
 		// replies stay in order: once one is withheld the later ones queue behind
-		for _, h := range b.Held {
-			if h.c == c {
-				policy = "hold"
-			}
+		if n := len(b.Held); n != 0 && (b.Held[n-1].c == c || b.heldFor(c)) {
+			policy = "hold"
 		}
 	}
 	switch policy {
@@ -396,4 +394,13 @@ func (b *Broker) Pending() int {
 	b.w.Mu.Lock()
 	defer b.w.Mu.Unlock()
 	return len(b.State.Out)
+}
+
+func (b *Broker) heldFor(c *Conn) bool {
+	for _, h := range b.Held {
+		if h.c == c {
+			return true
+		}
+	}
+	return false
 }
